@@ -204,7 +204,7 @@ def _unit(draw, gv, T, profiles=False, allow_fuel=True):
         for which, key, pool in (("start", "SRT", [0.5, 0.75, 1.0, 1.0]), ("shutdown", "SDT", [0.25, 0.5, 0.75, 1.0])):
             if not draw(st.booleans()):
                 continue
-            n = draw(st.sampled_from([1, 1, 2, 2, 3]))
+            n = draw(st.sampled_from([1, 1, 2, 2, 3, 3, 4] if which == "start" else [1, 1, 2, 2, 3]))
             vals = sorted(draw(st.lists(st.sampled_from(pool), min_size=n, max_size=n)))
             band = draw(st.sampled_from([0.0, 0.0, 0.25, 0.25]))
             cap_ = min(meta.get("max_series") or [maxq])
@@ -226,6 +226,13 @@ def _unit(draw, gv, T, profiles=False, allow_fuel=True):
                 a["%s_ramp_lower_bounds_heat" % which] = [x[0] / dt0 for x in hh]
                 a["%s_ramp_upper_bounds_heat" % which] = [x[1] / dt0 for x in hh]
                 meta["start_prof_heat" if which == "start" else "shut_prof_heat"] = hh
+    if meta["SRT"] >= 3 and draw(st.booleans()):
+        # the horizon begins inside the start ramp with at least two profile steps still to come (the unit was started
+        # one step before the horizon and delivered the first profile value there)
+        meta["tar"], meta["tao"] = 1, 0
+        a["time_already_running"], a["time_already_off"] = dur(1, dt0), 0
+        meta["lastq"] = uc.prof_range(meta["start_prof"][0])[0]
+        a["last_dispatch"] = meta["lastq"] / dt0
     if meta["SRT"] or meta["SDT"]:
         a["ramp_freq"] = g["freq"]      # profiles are given per grid step
         if draw(st.booleans()):
